@@ -20,6 +20,29 @@ CHECKS = {
             "Coq on every forest up to a node bound and on random forests and comparing with mammoth.html.collapse.",
             BASE_NOTE + "Non-mutation of the Python input objects is observed by snapshot, not proved.",
             "DESIGN.md §5 C04"),
+    "C14": ("proof",
+            "Coq proof (structural induction over HTML forests) + in-kernel correspondence of the model with mammoth.html.strip_empty",
+            "Theorems over all forests: a node is dropped iff it has no content (no non-empty text, no force-write marker, no childless "
+            "void element), nothing empty is left at any depth, and every content item survives with its order and ancestor chain. "
+            "Tied to the code by exhaustive small forests and random forests evaluated in Coq against mammoth.html.strip_empty.",
+            BASE_NOTE + "Conversion-level clause (which elements carry force-write; ignore_empty_paragraphs) is covered by the document-level correspondence.",
+            "DESIGN.md §5 C14"),
+    "C02": ("proof",
+            "Coq proof of the writer round trip (independent lexer recovers the written forest) + in-kernel correspondence with HtmlWriter",
+            "Theorems over all forests with plain names: the escape table read from the source is exactly the four specials; escaped "
+            "strings contain no raw < > quote and only the four entities; an independent strict reader recovers from write(forest) exactly "
+            "the forest's events (balanced tags, self-closed void elements, double-quoted attribute values decoded to the originals); "
+            "substituting strings changes no skeleton. The model writer is compared in Coq with HtmlWriter's actual output, which is also lexed by the Coq reader.",
+            BASE_NOTE + "Substitution through derived strings end-to-end is tested, not proved.",
+            "DESIGN.md §5 C02"),
+    "C07": ("proof",
+            "Coq proof of totality of the style-map reader and of a polynomial bound on the regex backtracking cost model + correspondence + timing ladder",
+            "Theorems: every newline-free line tokenises (catch-all, no empty match), the parser never reads past END nor runs out of fuel, so every "
+            "line is applied or reported; read_style_map of ANY text = mappings of readable lines + one warning per distinct unreadable line. "
+            "The token regexes are regenerated from the source on every run and proved deterministic (vm_compute), from which a generic theorem bounds "
+            "backtracking steps polynomially (linear per rule, quadratic for tokenise). Wall-clock is measured by a timing ladder on strings pumped from every regex loop.",
+            BASE_NOTE + "The step counter is a cost model of a priority-order backtracking matcher (what CPython's sre is); sre's constants and optimisations are not modelled; time is measured, not proved.",
+            "DESIGN.md §5 C07"),
 }
 
 PENDING = {}
@@ -71,7 +94,7 @@ def main():
     print("MANIFEST.json: %d checks, %d not_applicable" % (len(checks), len(na)))
 
 
-SOURCE_COMMITS = []
+SOURCE_COMMITS = ["885c918 fix: string token regex backtracked exponentially", "7af9c40 fix: list level with more digits than int() accepts"]
 
 if __name__ == "__main__":
     main()
